@@ -34,7 +34,9 @@ fn main() {
     if args.len() >= 4 && args[1] == "try" {
         // scratch: frmc try <pattern> <text>
         let re = fancy_regex::Regex::new(&args[2]).unwrap();
+        fancy_regex::verif::reset_stats();
         println!("{:?}", engine::captures_at(&re, &args[3], 0));
+        println!("{:?}", fancy_regex::verif::stats());
         return;
     }
     if args.len() >= 6 && args[1] == "c06-worker" {
@@ -93,7 +95,7 @@ fn replay(case: &frmc_core::json::J) -> i32 {
         "refsweep" | "shadow" => refsweep::replay(case),
         "c20" => props::c20::replay(case),
         "c06" => replay::compile_only(case),
-        "c18" | "c18-static" | "c18-crosstalk" | "c12" | "c17" => {
+        "c18" | "c18-static" | "c18-crosstalk" | "c18-stress" | "c12" | "c17" => {
             println!("{}", case.to_string_pretty());
             println!("(this kind is replayed by re-running `./check {} quick`; the record above holds the inputs and the schedule)", case.str_of("property"));
             0
